@@ -688,6 +688,9 @@ func c10Snapshot(r *core.Run, p *core.Program) {
 		return f
 	}
 	c10Batches(r, p, ld)
+	for _, n := range []string{"SerializeC", "SerializeU"} {
+		c10TwoPass(r, p, n)
+	}
 	r.Check(flag(sv) && flag(ld), rule, "flag-bit", p.Pos(sv.Pos()), "bit 63 of the first word announces compressed records on both sides", "the compressed-records bit (1<<63 of the first word) is not set by save and tested by the loader alike")
 	// the flag written follows db.ComprssedUTXO
 	okF := false
@@ -986,4 +989,134 @@ func c10Batches(r *core.Run, p *core.Program, ld *ssa.Function) {
 	}
 	sort.Strings(probs)
 	r.Check(len(probs) == 0, rule, "load/batches", p.Pos(sends[0].Pos()), "cursor 0 / +1; full batch sent whole at the last index and the cursor reset; the rest sent as buffer[:cursor]", strings.Join(probs, "; "))
+}
+
+// c10TwoPass: the record serialisers first add up the size of the record, allocate exactly that, and then
+// write. The terms of the size sum and the widths of the writes must be the same multiset: VLenSize(x) for
+// every PutULe(.., x), len(y) for every copied slice y, 32 for the id. A size term that differs from what
+// is written truncates the record or leaves garbage at its end.
+func c10TwoPass(r *core.Run, p *core.Program, name string) {
+	const rule = "R-C10-layout"
+	fn := p.Func("lib/utxo." + name)
+	if fn == nil {
+		r.Fail(rule, "two-pass/"+name, "-", "function not found")
+		return
+	}
+	norm := func(e string) string {
+		// the two passes are separate loops over the same list: their index variables differ by name only
+		for {
+			i := strings.Index(e, "phi:rangeindex@b")
+			if i < 0 {
+				break
+			}
+			j := i + len("phi:rangeindex@b")
+			for j < len(e) && e[j] >= '0' && e[j] <= '9' {
+				j++
+			}
+			e = e[:i] + "phi:i" + e[j:]
+		}
+		return e
+	}
+	var leaves func(v ssa.Value, seen map[ssa.Value]bool, out *[]ssa.Value)
+	leaves = func(v ssa.Value, seen map[ssa.Value]bool, out *[]ssa.Value) {
+		if seen[v] {
+			return
+		}
+		seen[v] = true
+		switch x := v.(type) {
+		case *ssa.Phi:
+			for _, e := range x.Edges {
+				leaves(e, seen, out)
+			}
+		case *ssa.BinOp:
+			if x.Op == token.ADD {
+				leaves(x.X, seen, out)
+				leaves(x.Y, seen, out)
+				return
+			}
+			*out = append(*out, v)
+		default:
+			*out = append(*out, v)
+		}
+	}
+	term := func(v ssa.Value) string {
+		if c, ok := v.(*ssa.Call); ok {
+			switch an.CallName(c) {
+			case "lib/btc.VLenSize":
+				return "vlen(" + norm(an.Expr(c.Call.Args[0])) + ")"
+			case "lib/btc.PutULe", "lib/btc.PutVlen":
+				return "vlen(" + norm(an.Expr(c.Call.Args[1])) + ")"
+			case "builtin.len":
+				return "len(" + norm(an.Expr(c.Call.Args[0])) + ")"
+			}
+		}
+		return norm(an.Expr(v))
+	}
+	// size: the argument of the allocation
+	size := map[string]bool{}
+	nAlloc := 0
+	an.Instrs(fn, func(i ssa.Instruction) {
+		c, ok := i.(*ssa.Call)
+		if !ok || an.Expr(c.Call.Value) != "lib/utxo.Memory_Malloc" || len(c.Call.Args) != 1 {
+			return
+		}
+		nAlloc++
+		var ls []ssa.Value
+		leaves(c.Call.Args[0], map[ssa.Value]bool{}, &ls)
+		for _, l := range ls {
+			size[term(l)] = true
+		}
+	})
+	// written: the offsets at which the buffer is sliced for PutULe / copy, plus the widths of the last writes
+	written := map[string]bool{}
+	var copied []string
+	an.Instrs(fn, func(i ssa.Instruction) {
+		c, ok := i.(*ssa.Call)
+		if !ok {
+			return
+		}
+		n := an.CallName(c)
+		if n != "lib/btc.PutULe" && n != "lib/btc.PutVlen" && n != "builtin.copy" {
+			return
+		}
+		sl, ok := c.Call.Args[0].(*ssa.Slice)
+		if !ok {
+			return
+		}
+		if n == "builtin.copy" {
+			copied = append(copied, norm(an.Expr(c.Call.Args[1])))
+		} else {
+			written[term(c)] = true
+		}
+		if sl.Low != nil {
+			var ls []ssa.Value
+			leaves(sl.Low, map[ssa.Value]bool{}, &ls)
+			for _, l := range ls {
+				written[term(l)] = true
+			}
+		}
+	})
+	// every copied slice advances the offset by its own length (the id: by the constant 32)
+	for _, y := range copied {
+		if strings.HasSuffix(y, ".TxID[:]") {
+			continue
+		}
+		written["len("+y+")"] = true
+	}
+	delete(written, "0")
+	delete(size, "0")
+	var onlyS, onlyW []string
+	for t := range size {
+		if !written[t] {
+			onlyS = append(onlyS, t)
+		}
+	}
+	for t := range written {
+		if !size[t] {
+			onlyW = append(onlyW, t)
+		}
+	}
+	sort.Strings(onlyS)
+	sort.Strings(onlyW)
+	r.Check(nAlloc == 1 && len(size) >= 6 && len(onlyS) == 0 && len(onlyW) == 0, rule, "two-pass/"+name, p.Pos(fn.Pos()), fmt.Sprintf("%d size terms, each written with the same width", len(size)), fmt.Sprintf("%s: counted but not written as such: [%s]; written but not counted as such: [%s]", name, strings.Join(onlyS, " ; "), strings.Join(onlyW, " ; ")))
 }
